@@ -449,6 +449,10 @@ impl LogReader {
                         _ => return Err(physical_read_err),
                     }
                 }
+
+                // A damaged fragment invalidates the record it was a part of. Report it so that the
+                // caller can decide whether skipping the record is acceptable.
+                return Err(physical_read_err);
             } else {
                 let record = maybe_record.unwrap();
 
@@ -582,12 +586,15 @@ impl LogReader {
             )));
         }
 
-        // Parse the payload
-        let serialized_block = [header_buffer.to_vec(), data_buffer].concat();
-        let block_record: BlockRecord = BlockRecord::try_from(&serialized_block)?;
+        // Account for the bytes consumed before parsing so that the reader stays aligned even if
+        // the fragment turns out to be damaged
         self.current_cursor_position += header_buffer.len() + data_bytes_read;
         self.current_block_offset =
             (self.current_block_offset + data_bytes_read) % BLOCK_SIZE_BYTES;
+
+        // Parse the payload
+        let serialized_block = [header_buffer.to_vec(), data_buffer].concat();
+        let block_record: BlockRecord = BlockRecord::try_from(&serialized_block)?;
 
         Ok(block_record)
     }
